@@ -27,7 +27,10 @@
 // may be served from the *second* of two candidate blocks (so that the next block of that size lands at
 // a lower address) and earlier dummies are released at random; between two constructions blocks of
 // assorted sizes are allocated and a random half of them is freed in random order, which fills the
-// allocator's bins with holes.  Build 0 of a process runs unperturbed (apart from <prealloc_kb>).
+// allocator's bins with holes.  Build 0 of a process runs unperturbed (apart from <prealloc_kb>), build 1
+// with that random perturbation, builds 2/3/4 from address-sorted pools per size class handed out in
+// DESCENDING / ASCENDING / random address order: two objects of one class (two nodes of a kind, two derived
+// clocks, two entities) compare oppositely by address in builds 2 and 3, whatever the allocator does.
 #include "netdump.h"
 #include <gatery/export/vhdl/VHDLExport.h>
 #include <gatery/export/vhdl/AST.h>
@@ -60,9 +63,66 @@ namespace perturb {
 
 	static inline uint64_t next() { uint64_t z = (state += 0x9E3779B97F4A7C15ull); z = (z ^ (z >> 30)) * 0xBF58476D1CE4E5B9ull; z = (z ^ (z >> 27)) * 0x94D049BB133111EBull; return z ^ (z >> 31); }
 
+	// Levels 2..4: SORTED POOLS.  Before the construction a pool of genuine malloc blocks is laid out per 16 byte
+	// size class and sorted by address; during the construction a request is served from the pool of its
+	// class  - level 2: highest address first (every later object of that class lies BELOW every earlier one),
+	//          level 3: lowest address first  (strictly ascending: the exact opposite order),
+	//          level 4: a random remaining block.
+	// A comparison of two same-class objects (two nodes of one type, two derived clocks, two entities, two
+	// node groups ...) by ADDRESS therefore gives opposite answers in the level 2 and the level 3 build,
+	// deterministically.  The blocks are ordinary malloc blocks, so free()/delete needs no special case.
+	static constexpr size_t NCLASS = 65;       // class c serves sizes (16(c-1), 16c], c = 1..64
+	struct Pool { void **blk = nullptr; size_t lo = 0, hi = 0; };
+	static Pool pools[NCLASS];
+	static uint64_t nPooled = 0;
+	static int cmpAddr(const void *a, const void *b) { uintptr_t x = (uintptr_t)*(void* const*)a, y = (uintptr_t)*(void* const*)b; return x < y ? -1 : x > y ? 1 : 0; }
+	static void fillPools() {
+		bool old = inside; inside = true;
+		size_t order[NCLASS];
+		for (size_t c = 0; c < NCLASS; c++) order[c] = c;
+		for (size_t i = NCLASS; i > 1; i--) std::swap(order[i - 1], order[next() % i]);   // which class lies above which also varies
+		for (size_t k = 0; k < NCLASS; k++) {
+			size_t c = order[k];
+			if (c == 0) continue;
+			size_t n = c <= 32 ? 1200 : 300;
+			Pool &p = pools[c];
+			p.blk = (void**)malloc(n * sizeof(void*));
+			for (size_t i = 0; i < n; i++) p.blk[i] = malloc(c * 16);
+			qsort(p.blk, n, sizeof(void*), cmpAddr);
+			p.lo = 0; p.hi = n;
+		}
+		inside = old;
+	}
+	static void releasePools() {
+		bool old = inside; inside = true;
+		for (size_t c = 0; c < NCLASS; c++) {
+			Pool &p = pools[c];
+			if (!p.blk) continue;
+			for (size_t i = p.lo; i < p.hi; i++) free(p.blk[i]);
+			free(p.blk); p.blk = nullptr; p.lo = p.hi = 0;
+		}
+		inside = old;
+	}
+	static void *allocPooled(size_t sz) {
+		size_t c = (sz + 15) / 16;
+		if (c < NCLASS) {
+			Pool &p = pools[c];
+			if (p.blk && p.lo < p.hi) {
+				nPooled++;
+				if (level == 2) return p.blk[--p.hi];
+				if (level == 3) return p.blk[p.lo++];
+				size_t k = p.lo + next() % (p.hi - p.lo);
+				std::swap(p.blk[k], p.blk[p.hi - 1]);
+				return p.blk[--p.hi];
+			}
+		}
+		return malloc(sz);
+	}
+
 	static void *alloc(size_t sz) {
 		if (sz == 0) sz = 1;
 		if (level == 0 || inside || !mainThread) return malloc(sz);
+		if (level >= 2) { nAlloc++; return allocPooled(sz); }
 		inside = true;
 		nAlloc++;
 		uint64_t r = next();
@@ -147,6 +207,23 @@ public:
 	bool partitions = false;
 	std::vector<std::unique_ptr<Memory<UInt>>> mems;
 	std::map<std::string, size_t> memIdx;
+	std::map<std::string, std::unique_ptr<Clock>> clocks;
+	std::vector<std::unique_ptr<ClockScope>> clkStack;
+	static ClockConfig clockCfg(const std::vector<std::string> &t, size_t from) {
+		ClockConfig cfg;
+		for (size_t i = from; i < t.size(); i++) {
+			auto eq = t[i].find('=');
+			std::string k = t[i].substr(0, eq), v = eq == std::string::npos ? std::string() : t[i].substr(eq + 1);
+			if (k == "rstname") cfg.resetName = v;
+			else if (k == "active") cfg.resetActive = v == "low" ? ClockConfig::ResetActive::LOW : ClockConfig::ResetActive::HIGH;
+			else if (k == "rst") cfg.resetType = v == "async" ? ClockConfig::ResetType::ASYNCHRONOUS : v == "none" ? ClockConfig::ResetType::NONE : ClockConfig::ResetType::SYNCHRONOUS;
+			else if (k == "trig") cfg.triggerEvent = v == "falling" ? ClockConfig::TriggerEvent::FALLING : ClockConfig::TriggerEvent::RISING;
+			else if (k == "name") cfg.name = v;      // a named derived clock gets its own clock pin
+			else if (k == "mult") { auto sl = v.find('/'); cfg.frequencyMultiplier = hlim::ClockRational(std::stoull(v.substr(0, sl)), sl == std::string::npos ? 1 : std::stoull(v.substr(sl + 1))); }
+			else throw std::runtime_error("unknown clock option " + t[i]);
+		}
+		return cfg;
+	}
 	virtual void stmt(const std::vector<std::string> &t) override {
 		const std::string &op = t[0];
 		auto setU = [&](const std::string &n, const UInt &v) { auto p = std::make_shared<nd::Val>(); p->v.emplace<UInt>(v); b.vars[n] = p; };
@@ -163,6 +240,18 @@ public:
 			auto &m = *mems.at(memIdx.at(t[2]));
 			UInt x = m[asU(t[3])];
 			setU(t[1], x);
+		} else if (op == "dclock") {   // dclock NAME PARENT|base [name=PIN] [rstname=X] [active=low] [rst=sync|async|none] [trig=falling] [mult=N/D]
+			ClockConfig cfg = clockCfg(t, 3);
+			Clock parent = t[2] == "base" ? ClockScope::getClk() : *clocks.at(t[2]);
+			clocks[t[1]] = std::make_unique<Clock>(parent.deriveClock(cfg));
+		} else if (op == "rclock") {   // rclock NAME FREQ_HZ [options]: a clock with its own clock pin
+			ClockConfig cfg = clockCfg(t, 3); cfg.name = t[1]; cfg.absoluteFrequency = hlim::ClockRational(std::stoull(t[2]), 1);
+			clocks[t[1]] = std::make_unique<Clock>(cfg);
+		} else if (op == "clk") {      // clk NAME ... endclk : registers / memory ports created in between belong to that clock
+			clkStack.push_back(std::make_unique<ClockScope>(*clocks.at(t[1])));
+		} else if (op == "endclk") {
+			if (clkStack.empty()) throw std::runtime_error("endclk");
+			clkStack.pop_back();
 		} else if (op == "area") {
 			nd::Interp::stmt(t);
 			if (partitions && t.size() > 2 && t[2] == "entity") groupStack.back()->setPartition(true);
@@ -194,8 +283,73 @@ static void subEntity(const std::string &name, UInt &v, const Bit &c, bool parti
 	v = r;
 }
 
+// One area holding registers (with and without reset value) and memories of MANY clocks that share clock and/or
+// reset pins in all combinations: same clock pin + different reset pins / polarities / reset kinds / trigger
+// edges, and a second clock pin.  The exporter groups the registers of a block into one clocked process per
+// (clock pin, reset pin, edge, reset kind, polarity): process names and their order must not depend on where the
+// Clock objects live.  `v` rotates the creation order (= ids) of the clocks and picks where the chains are placed.
+static void clockFamily(int v) {
+	Clock base = ClockScope::getClk();
+	struct Spec { const char *name; ClockConfig cfg; bool ownPin; };
+	std::vector<Spec> specs;
+	specs.push_back({"ck_rb", { .resetName = "rst_b" }, false});
+	specs.push_back({"ck_rc", { .resetName = "rst_c" }, false});
+	specs.push_back({"ck_rd_low", { .resetName = "rst_d", .resetActive = ClockConfig::ResetActive::LOW }, false});
+	specs.push_back({"ck_re_async", { .resetName = "rst_e", .resetType = ClockConfig::ResetType::ASYNCHRONOUS }, false});
+	specs.push_back({"ck_fall", { .triggerEvent = ClockConfig::TriggerEvent::FALLING }, false});
+	specs.push_back({"ck_fall_rf", { .resetName = "rst_f", .triggerEvent = ClockConfig::TriggerEvent::FALLING }, false});
+	specs.push_back({"ck_named", { .resetName = "rst_n" }, true});
+	specs.push_back({"ck_x", { .absoluteFrequency = hlim::ClockRational(50'000'000, 1), .resetName = "rst_x" }, true});
+	specs.push_back({"ck_x_ry", { .resetName = "rst_y" }, false});    // derived from ck_x below, shares its pin
+	specs.push_back({"ck_norst", { .resetType = ClockConfig::ResetType::NONE }, false});
+	std::rotate(specs.begin(), specs.begin() + (v * 2) % 7, specs.begin() + 7);   // creation order of the first seven
+	std::vector<Clock> clks;
+	std::optional<Clock> ckx;
+	for (auto &sp : specs) {
+		ClockConfig cfg = sp.cfg;
+		if (sp.ownPin) cfg.name = sp.name;      // a NAMED derived clock gets a clock pin of its own, an unnamed one shares its parent's
+		if (std::string(sp.name) == "ck_x") { ckx.emplace(cfg); clks.push_back(*ckx); }
+		else if (std::string(sp.name) == "ck_x_ry") clks.push_back(ckx->deriveClock(cfg));
+		else clks.push_back(base.deriveClock(cfg));
+	}
+	auto chains = [&](const std::string &prefix, bool withMem) {
+		// the chains are emitted in an order unrelated to the creation order of the clocks
+		for (size_t k = 0; k < clks.size(); k++) {
+			size_t i = (k * 3 + 3) % clks.size();   // 3 is coprime to the number of clocks: a permutation
+			std::string n = prefix + specs[i].name;
+			ClockScope sc(clks[i]);
+			UInt in = pinIn(3_b).setName(n + "_in");
+			UInt a = reg(in, 5);            // with reset value
+			UInt b = reg(a + 1);            // without
+			UInt c = reg(b ^ a, 2);
+			setName(c, n + "_c");
+			if (withMem && (i % 3) == 0) {
+				Bit w = pinIn().setName(n + "_w");
+				Memory<UInt> m(4, 3_b);
+				m.setName(n + "_m");
+				m.initZero();
+				UInt ad = c(0, 2_b);
+				UInt rd = m[ad];
+				IF (w) m[ad] = b;
+				c = c ^ reg(rd, 0);
+			}
+			pinOut(c).setName(n + "_out");
+		}
+	};
+	if (v % 2 == 0) { Area area("fam", true); chains("f_", v >= 2); }
+	else chains("r_", v >= 2);
+	if (v == 3) { Area area("fam2", true); chains("g_", false); }
+	// and the base clock itself
+	UInt x = pinIn(2_b).setName("x");
+	pinOut(reg(reg(x, 1) + 1)).setName("y");
+}
+
 static std::vector<HandDesign> handDesigns() {
 	std::vector<HandDesign> res;
+	res.push_back({"h_clockfam0", "single", "default", [] { clockFamily(0); }});
+	res.push_back({"h_clockfam1", "entity", "ghdl", [] { clockFamily(1); }});
+	res.push_back({"h_clockfam2", "partition", "vivado", [] { clockFamily(2); }});
+	res.push_back({"h_clockfam3", "entity", "quartus", [] { clockFamily(3); }});
 
 	res.push_back({"h_mem_rmw", "single", "default", [] {
 		UInt addr = pinIn(4_b).setName("addr");
@@ -508,6 +662,7 @@ static bool construct(const Job &job, const std::string &dir, int perturbLevel, 
 	bool ok = true;
 	try {
 		perturb::state = pseed * 0x9E3779B97F4A7C15ull + 12345;
+		if (perturbLevel >= 2) perturb::fillPools();
 		perturb::level = perturbLevel;
 		DesignScope design;
 		Clock clock({ .absoluteFrequency = 100'000'000 });
@@ -531,6 +686,16 @@ static bool construct(const Job &job, const std::string &dir, int perturbLevel, 
 			meta << "base " << (a.empty() ? 0 : a.front().first) << "\n";
 			meta << "nodes " << a.size() << " inversions " << inv << "\norder";
 			for (auto &p : a) meta << " " << p.second;
+			meta << "\n";
+			// the same for the Clock and NodeGroup objects (ids are creation order)
+			std::vector<std::pair<uintptr_t, uint64_t>> c;
+			for (auto &k : design.getCircuit().getClocks()) c.push_back({ (uintptr_t)k.get(), k->getId() });
+			size_t cinv = 0;
+			for (size_t i = 0; i < c.size(); i++) for (size_t j = i + 1; j < c.size(); j++)
+				if ((c[i].second < c[j].second) != (c[i].first < c[j].first)) cinv++;
+			std::sort(c.begin(), c.end());
+			meta << "clocks " << c.size() << " inversions " << cinv << "\nclockorder";
+			for (auto &p : c) meta << " " << p.second;
 			meta << "\n";
 			perturb::inside = old;
 		}
@@ -626,8 +791,9 @@ static bool construct(const Job &job, const std::string &dir, int perturbLevel, 
 	}
 	perturb::level = 0;
 	perturb::drain();
-	meta << "allocs " << perturb::nAlloc << " swapped " << perturb::nSwapped << " dummies " << perturb::nDummy << "\n";
-	perturb::nAlloc = perturb::nSwapped = perturb::nDummy = 0;
+	perturb::releasePools();
+	meta << "allocs " << perturb::nAlloc << " swapped " << perturb::nSwapped << " dummies " << perturb::nDummy << " pooled " << perturb::nPooled << " level " << perturbLevel << "\n";
+	perturb::nAlloc = perturb::nSwapped = perturb::nDummy = perturb::nPooled = 0;
 	return ok;
 }
 
@@ -680,14 +846,16 @@ int main(int argc, char **argv) {
 		for (size_t b = 0; b < nbuilds; b++) {
 			std::string err;
 			if (b > 0) perturb::scramble(pseed * 131 + b, 256 + 64 * b);
-			bool ok = construct(job, outroot + "/" + tag + "." + std::to_string(b) + "/" + job.id, b == 0 ? 0 : 1, pseed * 7919 + b, 0, cycles, err);
+			// build 0 plain malloc, 1 randomly perturbed operator new, 2 sorted pools descending, 3 ascending, 4 random pop, 5.. as 1
+			int lvl = b == 0 ? 0 : b <= 4 ? (int)b : 1;
+			bool ok = construct(job, outroot + "/" + tag + "." + std::to_string(b) + "/" + job.id, lvl, pseed * 7919 + b, 0, cycles, err);
 			ok ? done++ : failed++;
 			if (!ok) std::cerr << "SKIP " << job.id << " build " << b << ": " << err.substr(0, 300) << "\n";
 		}
 		for (size_t s = 1; s <= shuffles; s++) {
 			std::string err;
 			perturb::scramble(pseed * 977 + s, 128);
-			bool ok = construct(job, outroot + "/" + tag + ".s" + std::to_string(s) + "/" + job.id, (s & 1) ? 0 : 1, pseed * 6007 + s, s, cycles, err);
+			bool ok = construct(job, outroot + "/" + tag + ".s" + std::to_string(s) + "/" + job.id, (int)(s % 5), pseed * 6007 + s, s, cycles, err);
 			ok ? done++ : failed++;
 			if (!ok) std::cerr << "SKIP " << job.id << " shuffle " << s << ": " << err.substr(0, 300) << "\n";
 		}
